@@ -172,11 +172,18 @@ fn raw_lib(g: &Graph, listing: &[usize]) -> raw::Library {
 }
 fn gds_lib(g: &Graph, listing: &[usize], rng: &mut Rng) -> GdsLibrary {
     let mut lib = GdsLibrary::new("lib");
+    // in small graphs one array reference is a real array: 256 x 256, 512 x 128, 1024 x 64 ... (bit-cell arrays; the product of the two
+    // 16-bit counts is a multiple of 65536) or 255 x 257, 181 x 181 - once per library, since the importer expands it
+    let mut big_left = if g.len() <= 12 && rng.chance(1, 12) { 1 } else { 0 };
     for &i in listing {
         let mut s = GdsStruct::new(gname(g, i));
         s.elems.push(GdsElement::GdsBoundary(GdsBoundary { layer: 1, datatype: 0, xy: GdsPoint::vec(&[(0, 0), (2, 0), (2, 2), (0, 2), (0, 0)]), ..Default::default() }));
         for &j in &g[i] {
-            if rng.chance(1, 4) {
+            if big_left > 0 && g[j].is_empty() && rng.chance(1, 2) {
+                big_left -= 1;
+                let (c, r) = *rng.pick(&[(256i16, 256i16), (512, 128), (128, 512), (1024, 64), (255, 257), (181, 181), (256, 512)]);
+                s.elems.push(GdsElement::GdsArrayRef(GdsArrayRef { name: gname(g, j), xy: [GdsPoint::new(0, 0), GdsPoint::new(20 * c as i32, 0), GdsPoint::new(0, 20 * r as i32)], cols: c, rows: r, ..Default::default() }));
+            } else if rng.chance(1, 4) {
                 s.elems.push(GdsElement::GdsArrayRef(GdsArrayRef { name: gname(g, j), xy: [GdsPoint::new(0, 0), GdsPoint::new(20, 0), GdsPoint::new(0, 20)], cols: 2, rows: 2, ..Default::default() }));
             } else {
                 s.elems.push(GdsElement::GdsStructRef(GdsStructRef { name: gname(g, j), xy: GdsPoint::new(3, 4), ..Default::default() }));
